@@ -18,7 +18,7 @@ import (
 var (
 	c06P     = new(big.Int).Exp(big.NewInt(10), big.NewInt(18), nil)
 	c06Max   = new(big.Int).Exp(big.NewInt(10), big.NewInt(40), nil) // amm.MaxCoinAmount
-	c06Lim   = new(big.Int).Lsh(big.NewInt(1), 255)                  // keep inside sdk.Int
+	c06Lim   = new(big.Int).Lsh(big.NewInt(1), 256)                  // keep inside sdk.Int (BitLen <= 256)
 	c06Two   = new(big.Int).Lsh(big.NewInt(1), 315)
 	c06One   = big.NewInt(1)
 	c06Zero  = big.NewInt(0)
@@ -49,7 +49,7 @@ func c06ceildiv(a, b *big.Int) *big.Int {
 	return q
 }
 
-// c06clamp keeps |v| below 2^255 so that sdkmath.NewIntFromBigInt accepts it.
+// c06clamp keeps |v| below 2^256 so that sdkmath.NewIntFromBigInt accepts it.
 func c06clamp(v *big.Int) *big.Int {
 	if new(big.Int).Abs(v).Cmp(c06Lim) >= 0 {
 		return c06sub(c06Lim, c06One)
@@ -248,6 +248,45 @@ func c06Derive(tr *Trace, rx, ry, minP, maxP *big.Int) {
 	tr.Line("pool.derive", append(args, "ok", tx.BigInt().String(), ty.BigInt().String(), po, pv)...)
 }
 
+// c06poolFields prints `<ok|panic> transX transY <ok|panic|-> price` of a pool object (nil = its construction panicked).
+func c06poolFields(pool *amm.RangedPool) []string {
+	if pool == nil {
+		return []string{"panic", "-", "-", "-", "-"}
+	}
+	tx, ty := pool.Translation()
+	var price sdkmath.LegacyDec
+	pp, _ := try(func() { price = pool.Price() })
+	if pp {
+		return []string{"ok", tx.BigInt().String(), ty.BigInt().String(), "panic", "-"}
+	}
+	return []string{"ok", tx.BigInt().String(), ty.BigInt().String(), "ok", price.BigInt().String()}
+}
+
+// c06SetBal: the pool NewRangedPool(rx0, ry0) after SetBalances(rx, ry, derive), next to the fresh pool NewRangedPool(rx, ry).
+func c06SetBal(tr *Trace, rx0, ry0, minP, maxP, rx, ry *big.Int, derive bool) {
+	var pool *amm.RangedPool
+	if panicked, _ := try(func() { pool = amm.NewRangedPool(c06I(rx0), c06I(ry0), sdkmath.OneInt(), c06D(minP), c06D(maxP)) }); panicked {
+		return
+	}
+	tx0, ty0 := pool.Translation()
+	dv := "0"
+	if derive {
+		dv = "1"
+	}
+	args := []string{rx0.String(), ry0.String(), minP.String(), maxP.String(), rx.String(), ry.String(), dv, tx0.BigInt().String(), ty0.BigInt().String()}
+	if panicked, _ := try(func() { pool.SetBalances(c06I(rx), c06I(ry), derive) }); panicked {
+		pool = nil
+		tr.Count("setbal:panic")
+	} else {
+		tr.Count("setbal:ok:derive=" + dv)
+	}
+	var fresh *amm.RangedPool
+	if panicked, _ := try(func() { fresh = amm.NewRangedPool(c06I(rx), c06I(ry), sdkmath.OneInt(), c06D(minP), c06D(maxP)) }); panicked {
+		fresh = nil
+	}
+	tr.Line("pool.setbal", append(append(args, c06poolFields(pool)...), c06poolFields(fresh)...)...)
+}
+
 // c06tick returns a raw price with 5 significant digits (a tick at the default tick precision 4) and
 // decimal exponent e of the raw value (raw in [10^e, 10^(e+1))), e in [3, 38].
 func c06tick(r *Rng, e int) *big.Int {
@@ -327,7 +366,9 @@ func c06triple(r *Rng, tr *Trace) (minP, maxP, initP *big.Int) {
 	// malformed stream
 	if r.Chance(6) {
 		tr.Count("triple:malformed")
-		switch r.Intn(6) {
+		switch r.Intn(7) {
+		case 6:
+			maxP = c06b(int64(-r.Intn(2))) // max price zero / negative
 		case 0:
 			minP, maxP = maxP, minP
 		case 1:
@@ -368,6 +409,10 @@ func TestC06(t *testing.T) {
 	//     `ranged_price_far_below_min_counterexample` (85 % below minPrice)
 	c06Create(tr, bi("66000000000000000000"), bi("89000000000000000000000000000000"), bi("46030000000000000000000000000000000000"),
 		bi("100000000000000000000000000000000000000"), bi("47485000000000000000000000000000000000"))
+	//     `rederive_moves_endpoint_counterexample`: along its own curve the pool stays inside the range, re-derived at the
+	//     same reserves it is below minPrice
+	c06SetBal(tr, bi("1000000"), bi("300000"), bi("3200000000000000000"), bi("3203200000000000000"), bi("0"), bi("612420"), false)
+	c06SetBal(tr, bi("1000000"), bi("300000"), bi("3200000000000000000"), bi("3203200000000000000"), bi("0"), bi("612420"), true)
 	// (2) the half-even round-down of mintProportion: one third of the pool for 10^18-1 instead of 10^18 coins
 	//     (Props/C06.lean `deposit_dust_goes_to_depositor`)
 	c06Deposit(tr, bi("3000000000000000000"), bi("3000000000000000000"), bi("3"), bi("1000000000000000002"), bi("1000000000000000002"))
@@ -545,6 +590,12 @@ func TestC06(t *testing.T) {
 		case 4: // far beyond the module bounds
 			rx, ry, ps = c06amount(rng, 76), c06amount(rng, 76), c06amount(rng, 76)
 			pc = c06below(rng, c06add(ps, c06One))
+			if rng.Chance(30) { // the overflow arm of Withdraw: a reserve just below 2^256 and nearly the whole supply
+				rx = c06sub(c06sub(new(big.Int).Lsh(c06One, 256), c06One), c06amount(rng, 70))
+				ps = c06add(c06amount(rng, 40), c06pow10(20))
+				pc = c06sub(ps, c06One)
+				tr.Count("withdraw:overflow-directed")
+			}
 		default: // single-sided / small
 			rx, ry, ps = c06amount(rng, 40), c06amount(rng, 6), c06amount(rng, 10)
 			if rng.Chance(50) {
@@ -625,5 +676,55 @@ func TestC06(t *testing.T) {
 			rx, ry = c06amount(rng, 10), c06amount(rng, 10)
 		}
 		c06Derive(tr, rx, ry, minP, maxP)
+		// the same pool moved by a swap: SetBalances with the translation kept / re-derived
+		if rng.Chance(35) {
+			var pool *amm.RangedPool
+			if panicked, _ := try(func() { pool = amm.NewRangedPool(c06I(rx), c06I(ry), sdkmath.OneInt(), c06D(minP), c06D(maxP)) }); panicked {
+				continue
+			}
+			tx, ty := pool.Translation()
+			var nx, ny *big.Int
+			mode := rng.Intn(5)
+			tr.Count("setbal-mode:" + u(uint64(mode)))
+			// points of the pool's own curve (rx+tx)(ry+ty) = k, in raw 10^-18 units
+			k := c06mul(c06add(c06mul(rx, c06P), tx.BigInt()), c06add(c06mul(ry, c06P), ty.BigInt()))
+			onCurveY := func(x *big.Int) *big.Int { // smallest ry with (x+tx)(ry+ty) >= k
+				d := c06add(c06mul(x, c06P), tx.BigInt())
+				if d.Sign() <= 0 {
+					return big.NewInt(0)
+				}
+				v := c06sub(c06ceildiv(k, d), ty.BigInt())
+				if v.Sign() < 0 {
+					return big.NewInt(0)
+				}
+				return c06ceildiv(v, c06P)
+			}
+			switch mode {
+			case 0: // the all-base end of the curve
+				nx = big.NewInt(0)
+				ny = onCurveY(nx)
+			case 1: // the all-quote end
+				ny = big.NewInt(0)
+				d := ty.BigInt()
+				if d.Sign() <= 0 {
+					continue
+				}
+				v := c06sub(c06ceildiv(k, d), tx.BigInt())
+				if v.Sign() < 0 {
+					v = big.NewInt(0)
+				}
+				nx = c06ceildiv(v, c06P)
+			case 2, 3: // somewhere on the curve
+				nx = c06below(rng, c06add(c06mul(rx, c06b(2)), c06One))
+				ny = onCurveY(nx)
+			default: // anywhere
+				nx, ny = c06amount(rng, 30), c06amount(rng, 30)
+			}
+			if nx.Cmp(c06mul(c06Max, c06pow10(20))) > 0 || ny.Cmp(c06mul(c06Max, c06pow10(20))) > 0 {
+				continue
+			}
+			c06SetBal(tr, rx, ry, minP, maxP, nx, ny, false)
+			c06SetBal(tr, rx, ry, minP, maxP, nx, ny, true)
+		}
 	}
 }
